@@ -1,7 +1,11 @@
 from .common import main_dispatch
 
 REGISTRY = {
+    'C01': 'harness.fitkernel',
+    'C03': 'harness.fitkernel',
+    'C04': 'harness.fitkernel',
     'C05': 'harness.c05',
+    'C11': 'harness.fitkernel',
 }
 
 if __name__ == '__main__':
